@@ -568,10 +568,11 @@ impl<'a> Tr<'a> {
             Some(r) => {
                 let b = self.expr(r, Some(&Ty::Adt(name.clone())))?;
                 pre.extend(b.pre);
-                format!("({{ {} with {} }} : {})", b.term, parts.join(", "), lean)
+                format!("({{ {} with {} }} : {})", b.term, parts.join(", "), self.ph("lty", &[&Ty::Adt(name.clone())]))
             }
-            None => format!("({{ {} }} : {})", parts.join(", "), lean),
+            None => format!("({{ {} }} : {})", parts.join(", "), self.ph("lty", &[&Ty::Adt(name.clone())])),
         };
+        let _ = &lean;
         Ok(Out { pre, term, ty: Ty::Adt(name), diverges: false })
     }
 
@@ -662,6 +663,27 @@ impl<'a> Tr<'a> {
         }
         // unsafe intrinsics
         if last == "from_raw_parts" || last == "from_raw_parts_mut" {
+            // `s.as_ptr() as *const [T; N]`: the elements regrouped into arrays of N
+            if let Expr::Cast(cast) = peel(&c.args[0]) {
+                if let syn::Type::Ptr(tp) = &*cast.ty {
+                    if let syn::Type::Array(arr) = &*tp.elem {
+                        if let Some((s, None)) = self.ptr_pattern(&cast.expr)? {
+                            let nn = self.expr(&arr.len, Some(&Ty::Int(IntTy::USIZE)))?;
+                            let n = self.expr(&c.args[1], Some(&Ty::Int(IntTy::USIZE)))?;
+                            let t = self.fresh("t");
+                            let mut pre = s.pre;
+                            pre.extend(nn.pre);
+                            pre.extend(n.pre);
+                            pre.push(format!("let {} ← Rs.rawPartsArrays {} {} {}", t, s.term, nn.term, n.term));
+                            let et = match self.sub.shallow(&s.ty) {
+                                Ty::Slice(e) => *e,
+                                other => return self.err(c.span(), &format!("array view of {}", other)),
+                            };
+                            return Ok(Out { pre, term: t, ty: Ty::Slice(Box::new(Ty::Slice(Box::new(et)))), diverges: false });
+                        }
+                    }
+                }
+            }
             if let Some((s, off)) = self.ptr_pattern(&c.args[0])? {
                 let n = self.expr(&c.args[1], Some(&Ty::Int(IntTy::USIZE)))?;
                 let t = self.fresh("t");
@@ -773,7 +795,7 @@ impl<'a> Tr<'a> {
         let saved_gen = std::mem::take(&mut self.generics);
         let saved_cur = self.cur;
         let callee_pat = pattern_generics(&callee.sig.generics);
-        let callee_gen: Vec<String> = callee.sig.generics.type_params().map(|p| p.ident.to_string()).filter(|g| !callee_pat.contains(g)).collect();
+        let callee_gen: Vec<String> = all_type_params(&callee).into_iter().filter(|g| !callee_pat.contains(g)).collect();
         self.generics = callee_gen.clone();
         let saved_pat = std::mem::replace(&mut self.pattern_generics, callee_pat);
         // SAFETY of lifetimes: `callee` is a clone living in this frame; conv_ty only reads self.cur.self_ty/module
@@ -806,6 +828,17 @@ impl<'a> Tr<'a> {
 
         let mut pre = Vec::new();
         let mut terms: Vec<String> = Vec::new();
+        let callee_consts = all_const_params(&callee);
+        if const_args.len() < callee_consts.len() && !callee_pat_nonempty(&callee) {
+            // const generics not given by a turbofish: the parameters of the same name in scope
+            for c in &callee_consts[..callee_consts.len() - const_args.len()] {
+                if self.const_generics.contains(c) {
+                    terms.push(lean_ident(c));
+                } else {
+                    return self.err(sp, &format!("cannot determine const generic `{}` of the callee", c));
+                }
+            }
+        }
         terms.extend(const_args);
         let mut arg_iter = args.into_iter();
         if has_self {
@@ -1043,6 +1076,10 @@ impl<'a> Tr<'a> {
         }
         Ok(Some(Out { pre: c.pre, term: format!("(if {} then {} else {})", c.term, a.term, b.term), ty: at, diverges: false }))
     }
+}
+
+fn callee_pat_nonempty(f: &FnEntry) -> bool {
+    !pattern_generics(&f.sig.generics).is_empty()
 }
 
 fn state_tuple(vars: &[String]) -> String {
